@@ -59,7 +59,21 @@ def _vc(schema: Schema, fi: FI, v) -> str:
     return c
 
 
-def culprits(schema: Schema, mi: MI, tree, fails: Callable[[MI, Any], bool], depth: int = 0) -> List[str]:
+_CULPRIT_CACHE: Dict[Any, List[str]] = {}
+
+
+def culprits(schema: Schema, mi: MI, tree, fails: Callable[[MI, Any], bool], depth: int = 0, cache_key=None) -> List[str]:
+    """Cached front end of _culprits: the same clause on the same multiset of (kind, value class) is localised once."""
+    if cache_key is None or depth:
+        return _culprits(schema, mi, tree, fails, depth)
+    key = (cache_key, mi.full_name, tuple(sorted(describe(schema, fi, tree[fi.name]) for fi in mi.fields if fi.name in tree)))
+    hit = _CULPRIT_CACHE.get(key)
+    if hit is None:
+        hit = _CULPRIT_CACHE[key] = _culprits(schema, mi, tree, fails, depth)
+    return hit
+
+
+def _culprits(schema: Schema, mi: MI, tree, fails: Callable[[MI, Any], bool], depth: int = 0) -> List[str]:
     """Name the smallest part of `tree` that still fails the clause on its own.
 
     Each set top-level field is re-checked alone; for a message-typed culprit the sub-tree is
@@ -99,7 +113,7 @@ def culprits(schema: Schema, mi: MI, tree, fails: Callable[[MI, Any], bool], dep
             deeper = None
             for s in subs:
                 if s and fails(sub_mi, s):
-                    deeper = culprits(schema, sub_mi, s, fails, depth + 1)
+                    deeper = _culprits(schema, sub_mi, s, fails, depth + 1)
                     break
             if deeper and not deeper[0].startswith("interaction"):
                 hits.extend(deeper)
@@ -119,7 +133,8 @@ def failures_for(schema: Schema, mi: MI, tree, clause: str, detail: str, fails, 
     """One Failure per culprit field (so a known finding on one field never hides another field)."""
     from ..engine import Failure
 
-    return [Failure(clause, fmt.format(clause=clause, where=w), detail) for w in culprits(schema, mi, tree, fails)]
+    return [Failure(clause, fmt.format(clause=clause, where=w), detail)
+            for w in culprits(schema, mi, tree, fails, cache_key=(clause, fmt))]
 
 
 NONTRIVIAL_MARKS = ("_undef", "=neg", "pos64", "=nan", "=inf", "=empty", "map<", "posbig", "big", "frac")
